@@ -873,11 +873,79 @@ def s13(repo, res):
             res.add(Finding("S13", m.rel, "validate_field_func", cmps[0] if cmps else c, f"the output shape is not compared with the probe's shape {shp}", (cmps[0] if cmps else c).lineno))
 
 
+def s14_s16(repo, res):
+    """validator hygiene in input_checks.py
+    S14 scalar gates accept every real number type: `isinstance(x, numbers.Number)` (NumPy scalars such as np.int64 / np.float32, e.g.
+        elements of np.arange, are Numbers but not `int` / `float`); a gate on `(int, float)` rejects valid scalars
+    S15 the raw user value reaches NumPy only inside the translating `try` of make_float_array (or another try whose handler raises the
+        input error): np.ndim / np.shape / np.array / np.asarray / len(np...) on the untouched parameter elsewhere raise foreign errors
+        for ragged input before the translation can happen
+    S16 sign / zero constraints on a vector are tested element by element (np.any / np.all / a mask), never on an aggregate of the
+        entries (np.prod, np.sum, np.min of a product ...): in a product two negative sizes cancel"""
+    m = repo.mod(IC)
+    n14 = n15 = n16 = 0
+    for q, fn in m.funcs.items():
+        if not fn.args.args:
+            continue
+        p = fn.args.args[0].arg
+        # ---- S14
+        for c in ast.walk(fn):
+            if isinstance(c, ast.Call) and getattr(c.func, "id", "") == "isinstance" and len(c.args) == 2 and isinstance(c.args[0], ast.Name) and c.args[0].id == p:
+                t = c.args[1]
+                names = [ast.unparse(e) for e in (t.elts if isinstance(t, ast.Tuple) else [t])]
+                if any(nm in ("int", "float") for nm in names) and not any("Number" in nm or "number" in nm or "integer" in nm or "floating" in nm for nm in names):
+                    n14 += 1
+                    # only a *scalar gate* (the branch accepts a scalar value); type lists that also admit sequences are format switches
+                    if not any(nm in ("list", "tuple", "np.ndarray", "ndarray", "str") for nm in names):
+                        res.ob(f"S14:{q}:{norm(c)}", False)
+                        res.add(Finding("S14", m.rel, q, c, f"scalar gate on {names}: NumPy scalars (np.int64, np.float32, elements of np.arange) are real numbers "
+                                        "but neither int nor float, so valid scalar input is rejected", c.lineno))
+                elif any("Number" in nm for nm in names):
+                    n14 += 1
+                    res.ob(f"S14:{q}:{norm(c)}", True, None, nontrivial=False)
+        # ---- S15: numpy conversions of the raw parameter outside a translating try
+        rebound_at = min([s_.lineno for s_ in ast.walk(fn) if isinstance(s_, ast.Assign) and any(isinstance(t, ast.Name) and t.id == p for t in s_.targets)] or [10 ** 9])
+        protected = set()
+        for t in ast.walk(fn):
+            if isinstance(t, ast.Try) and any(h.type is None or "Exception" in ast.unparse(h.type) or "Error" in ast.unparse(h.type) for h in t.handlers):
+                for b in t.body:
+                    for x in ast.walk(b):
+                        protected.add(id(x))
+        for c in ast.walk(fn):
+            if isinstance(c, ast.Call) and isinstance(c.func, ast.Attribute) and ast.unparse(c.func.value) == "np" and c.func.attr in (
+                    "ndim", "shape", "size", "array", "asarray", "asanyarray", "atleast_1d", "atleast_2d", "squeeze", "ravel") \
+                    and c.args and isinstance(c.args[0], ast.Name) and c.args[0].id == p and c.lineno <= rebound_at:
+                n15 += 1
+                ok = id(c) in protected
+                res.ob(f"S15:{q}:{norm(c)}", ok, {"rule": "S15", "validator": q, "conversion": norm(c), "inside_translating_try": ok})
+                if not ok:
+                    res.add(Finding("S15", m.rel, q, c, f"NumPy is applied to the raw user value `{p}` outside a try that translates failures: a ragged nesting "
+                                    "([[1,2,3],[4,5]]) raises NumPy's own ValueError instead of the library's input error", c.lineno))
+        # ---- S16
+        for c in ast.walk(fn):
+            if isinstance(c, ast.Compare) and len(c.ops) == 1 and isinstance(c.ops[0], (ast.Lt, ast.LtE, ast.Gt, ast.GtE)) and \
+                    isinstance(c.comparators[0], ast.Constant) and c.comparators[0].value == 0:
+                L = c.left
+                if isinstance(L, ast.Call) and getattr(L.func, "attr", "") in ("prod", "sum", "mean", "cumprod", "cumsum", "linalg.det", "det", "dot") \
+                        and any(isinstance(x, ast.Name) and x.id == p for x in ast.walk(L)):
+                    n16 += 1
+                    res.ob(f"S16:{q}:{norm(c)}", False)
+                    res.add(Finding("S16", m.rel, q, c, f"the sign constraint is tested on an aggregate of the entries ({norm(L)}): an even number of negative entries "
+                                    "(or a negative and a large positive one in a sum) passes", c.lineno))
+                elif any(isinstance(x, ast.Name) and x.id == p for x in ast.walk(L)):
+                    n16 += 1
+                    res.ob(f"S16:{q}:{norm(c)}", True, None, nontrivial=False)
+    res.require(n14 >= 4, f"S14: only {n14} scalar type gates found in input_checks")
+    res.require(n16 >= 2, f"S16: only {n16} sign tests found in input_checks")
+    res.analysed.update({"S14_gates": n14, "S15_raw_conversions": n15, "S16_sign_tests": n16})
+
+
 def run(repo, res, tier):
     res.rules = ["S1 validate-before-store", "S2 independent copy", "S3 documented shape vs configuration", "S4 constraints consulted on accepting paths",
                  "S5 None-flow", "S6 constructor = setter", "S8 relational constraints", "S9 rank/type gates",
                  "S10 a membership-validated setter stores the value it tested",
-                 "S11 validated value stored verbatim", "S12 total exception translation", "S13 field_func probe adequacy"]
+                 "S11 validated value stored verbatim", "S12 total exception translation", "S13 field_func probe adequacy", "S14 scalar gates admit every real number type",
+                 "S15 raw user values reach NumPy only inside a translating try", "S16 sign constraints tested elementwise"]
     s1_s6(repo, res)
     s3(repo, res)
     s3b(repo, res)
@@ -888,6 +956,7 @@ def run(repo, res, tier):
     s11(repo, res)
     s12(repo, res)
     s13(repo, res)
+    s14_s16(repo, res)
     import rules_domain
     n10 = rules_domain.checked_is_stored(repo, res, "S10")
     res.require(n10 >= 12, f"S10: only {n10} membership-validated setters found (16 confirmed by hand)")
